@@ -4,5 +4,6 @@ INVARIANT KeywordsExact
 INVARIANT FirstDeviation
 INVARIANT NeedsTerminator
 INVARIANT NoPanicInv
+PROPERTY ErrorIsFinal
 ACTION_CONSTRAINT Emit
 CHECK_DEADLOCK FALSE
